@@ -199,10 +199,10 @@ package kvstore
 //@                k.tables[len(k.tables)-1].ttlOf(hkey) == value.ttl && k.tables[len(k.tables)-1].tsOf(hkey) == value.timestamp
 //@   ensures  #unique [C11]: result == nil ==> forall j int {k.tables[j]} :: 0 <= j && j < len(k.tables) - 1 ==> !k.tables[j].has(hkey)
 //@   ensures  #inv_out: k.inv()
-//@   loop 0 invariant #size_fits: 29 + len(value.key) + len(value.value) < k.tableSize
 //@   loop 0 invariant #retry: k.inv() && len(k.tables) >= 1 &&
 //@                (forall i int {k.tables[i]} :: 0 <= i && i < len(k.tables) ==> base(value.value) != base(k.tables[i].memory)) &&
 //@                bstr(value.value) == old(bstr(value.value))
+//@   loop 0 invariant #size_fits: 29 + len(value.key) + len(value.value) < k.tableSize
 //@   loop 0 decreases ite(k.fits(29 + len(value.key) + len(value.value)), 0, 1)
 
 //@ func (k *KVStore) PutRaw(hkey uint64, value []byte) error
@@ -217,7 +217,7 @@ package kvstore
 //@   ensures  #stored [C11 C04]: result == nil ==> len(k.tables) >= 1 && k.tables[len(k.tables)-1].has(hkey) && k.tables[len(k.tables)-1].size(hkey) == len(value)
 //@   ensures  #unique [C11]: result == nil ==> forall j int {k.tables[j]} :: 0 <= j && j < len(k.tables) - 1 ==> !k.tables[j].has(hkey)
 //@   ensures  #inv_out: k.inv()
-//@   loop 0 invariant #size_fits: len(value) < k.tableSize
 //@   loop 0 invariant #retry: k.inv() && len(k.tables) >= 1 && entry.wfAt(elems(value), off(value), len(value)) &&
 //@                (forall i int {k.tables[i]} :: 0 <= i && i < len(k.tables) ==> base(value) != base(k.tables[i].memory))
+//@   loop 0 invariant #size_fits: len(value) < k.tableSize
 //@   loop 0 decreases ite(k.fits(len(value)), 0, 1)
